@@ -18,6 +18,7 @@ MANIFEST = {
     'technique': 'reference-model monitor on the real extrema/envelope stages, exhaustive small-scope enumeration + seeded random',
 }
 LOGGER_ON_ODD_SHARDS = True
+SESSION_NOISE = True      # every shard starts after unrelated session activity (harness.session_noise)
 BUDGET_S = {'quick': 60, 'thorough': 420}
 MAXLEN = {'quick': 7, 'thorough': 9}
 NRANDOM = {'quick': 1500, 'thorough': 20000}
@@ -240,7 +241,7 @@ def _run_shard(ctx):
     for i in range(n):
         if ctx.out_of_time():
             break
-        kind = gens.pick(rng, ['noise', 'int', 'int', 'walk', 'tones', 'periodic', 'palindrome', 'steps'])
+        kind = gens.pick(rng, ['noise', 'int', 'int', 'walk', 'tones', 'periodic', 'palindrome', 'steps', 'spikes', 'transient', 'transient'])
         N = int(gens.pick(rng, [20, 50, 200, 1000, 1000, 6000]))
         x = gens.signal(rng, kind, N)
         if rng.random() < .2:
@@ -252,7 +253,8 @@ def _run_shard(ctx):
         pad = int(rng.integers(0, 6))
         parabolic = bool(rng.random() < .5)
         mode = gens.pick(rng, MODES)
-        mpo = {'mode': 'mean', 'stat_length': 2} if rng.random() < .2 else None
+        mpo = gens.pick(rng, [{'mode': 'mean', 'stat_length': 2}, {'mode': 'maximum', 'stat_length': 2}, {'mode': 'minimum', 'stat_length': 3},
+                              {'mode': 'constant', 'constant_values': 0.7}, {'mode': 'linear_ramp', 'end_values': -0.4}]) if rng.random() < .3 else None
         if np.asarray(x).dtype.kind == 'i':
             mpo = None    # np.pad's 'mean' rounds on integer arrays: numpy's business, not the property's
         ctx.count('random_signals')
